@@ -3,6 +3,7 @@ package kvql
 import (
 	"fmt"
 	"strings"
+	"unicode"
 )
 
 var (
@@ -114,6 +115,14 @@ func outputQueryAndErrPos(query string, pos int, adjust int) string {
 	qlen := len(tquery)
 	if pos == -1 {
 		pos = qlen
+	} else {
+		// pos is an offset into query; tquery starts after the leading blanks
+		pos -= len(query) - len(strings.TrimLeftFunc(query, unicode.IsSpace))
+		if pos < 0 {
+			pos = 0
+		} else if pos > qlen {
+			pos = qlen
+		}
 	}
 	trimLeft := false
 	trimRight := false
